@@ -78,6 +78,9 @@ def build(P):
         yield ("cast-matrix", [repl_case("C01-cast-%d" % k, prof_expr.CAST_SETUP + ch, meta=dict(units=ch)) for k, ch in enumerate(chunks(cmx, 300))]
                               + [Case(id="C01-castf-%d" % i, prog=("\n".join(prof_expr.CAST_SETUP + ["OUTPUT \"before\"", "OUTPUT " + e if "<-" not in e else e, "OUTPUT \"after\""]) + "\n").encode(), meta=dict(units=["castf/%d" % i]))
                                  for i, e in enumerate(cmx) if "<-" not in e and (i % 3 == 0 or tier == "thorough")])
+        # (a5) the pointer shapes of C09 (live, unset, dead targets; later calls re-using the stack), normal and sanitizer build
+        import prof_data
+        yield ("pointer-shapes", [Case(id="C01-ptr-%d" % i, prog=(sp + "\n").encode(), meta=dict(units=["ptr/%d" % i])) for i, sp in enumerate(prof_data.C09_SHAPES_FN())])
         # (a4) every file statement and EOF in every handle state (closed / READ / WRITE / APPEND / RANDOM; file present or absent), file mode
         fsm = []
         states = {"closed": [], "READ": ["OPENFILE \"m.txt\" FOR READ"], "WRITE": ["OPENFILE \"m.txt\" FOR WRITE"], "APPEND": ["OPENFILE \"m.txt\" FOR APPEND"], "RANDOM": ["OPENFILE \"m.txt\" FOR RANDOM"]}
@@ -293,7 +296,9 @@ def build(P):
                   ("OUTPUT 1\nPROCEDURE P\nPROCEDURE Q\nENDPROCEDURE\nENDPROCEDURE", 3), ("OUTPUT \"a\\nb\\nc\"\nx <- '\\n'\ny <- )", 3), ("s <- \"\\n\\n\"\nOUTPUT s\nIF THEN", 3), ("OUTPUT 1\nCASE OF 5\nENDCASE", 2), ("OUTPUT 1\nTYPE T = 5", 2), ("OUTPUT 1\nDECLARE : INTEGER", 2),
                   # faults noticed only at the end of their line
                   ("OUTPUT 1\ntotal <- 40 +\nOUTPUT 2", 2), ("OUTPUT 1\nOUTPUT\nOUTPUT 2", 2), ("OUTPUT 1\n\n\nx <-\n\nOUTPUT 2", 4), ("OUTPUT 1\nCALL\nOUTPUT 2", 2), ("OUTPUT 1\nx <- 1 +  // why\nOUTPUT 2", 2),
-                  ("OUTPUT 1\nDECLARE x :\nOUTPUT 2", 2), ("OUTPUT 1\nx <- LENGTH(\"a\"\nOUTPUT 2", 2), ("OUTPUT 1\nINPUT\nOUTPUT 2", 2), ("OUTPUT 1\r\nx <- 2 *\r\nOUTPUT 2", 2), ("OUTPUT 1\nx <- 2 *", 2), ("x <- NOT", 1)]
+                  ("OUTPUT 1\nDECLARE x :\nOUTPUT 2", 2), ("OUTPUT 1\nx <- LENGTH(\"a\"\nOUTPUT 2", 2), ("OUTPUT 1\nINPUT\nOUTPUT 2", 2), ("OUTPUT 1\r\nx <- 2 *\r\nOUTPUT 2", 2), ("OUTPUT 1\nx <- 2 *", 2), ("x <- NOT", 1),
+                  # a literal that is out of range is a fault of the source text wherever it stands, also in a branch never taken
+                  ("OUTPUT 1\nIF FALSE THEN\nx <- 99999999999999999999\nENDIF\nOUTPUT 2", 3), ("OUTPUT 1\nPROCEDURE Never()\nOUTPUT 123456789012345678901234567890\nENDPROCEDURE\nOUTPUT 2", 3)]
         yield ("syntax-shapes", [Case(id="C11-shape-%d" % i, prog=(s + "\n").encode(), meta=dict(kind="syntax", line=ln, nlines=s.count("\n") + 1, shape=True)) for i, (s, ln) in enumerate(shapes)])
         cases = []
         n = sizes(tier, 300, 6000)
@@ -376,6 +381,7 @@ def build(P):
             syn = [d for d in r.diags if d.kind == "syntax"]
             if syn:
                 if b"SENTINEL" in r.out: msgs.append("a statement ran before the syntax error was reported: stdout %r" % r.out[:60])
+                if c.meta.get("shape") and r.out.strip() != b"": msgs.append("a statement ran before the syntax error was reported: stdout %r" % r.out[:60])
                 if "sentinel.txt" in r.files: msgs.append("a file was created although the source has a syntax error")
                 if len(r.diags) != 1 or r.exit != 1: msgs.append("expected exactly one Syntax Error and exit status 1, got %r exit %d" % ([d.kind for d in r.diags], r.exit))
                 d = syn[0]
@@ -481,6 +487,7 @@ def build(P):
                  repl_case("C12-runfile-first", ["RUNFILE bare.pseudo", "1 + 5", "\"abc\" & \"def\"", "bv", "RUNFILE bare.pseudo", "bv * 2", "2.5 * 3"], files={"bare.pseudo": ("f", b"bv <- 3\nbv + 1\nLENGTH(\"four\")\nOUTPUT \"file ran\"\nbv\n")}, meta=dict(noshrink=True)),
                  repl_case("C12-runfile-later", ["x <- 2", "x", "RUNFILE bare.pseudo", "x + bv", "FUNCTION Tw(n : INTEGER) RETURNS INTEGER\nRETURN n * 2\nENDFUNCTION", "Tw(5)", "RUNFILE calls.pseudo", "Tw(x)"],
                            files={"bare.pseudo": ("f", b"bv <- 3\nbv + 1\nOUTPUT \"file ran\"\nbv\n"), "calls.pseudo": ("f", b"FUNCTION Tr(n : INTEGER) RETURNS INTEGER\nRETURN n * 3\nENDFUNCTION\nTr(4)\nOUTPUT Tr(1)\n")}, meta=dict(noshrink=True)),
+                 repl_case("C12-prefix-underscore", ["FOR_total <- 1", "IF_flag <- TRUE", "TYPE_id <- 3", "WHILE_1 <- 4", "REPEAT_ <- 5", "CASE_x <- 6", "PROCEDURE_p <- 7", "FUNCTION_f <- 8", "FOR_total + TYPE_id + WHILE_1 + REPEAT_ + CASE_x + PROCEDURE_p + FUNCTION_f", "IF_flag", "count <- 2", "OUTPUT count + FOR_total", "FOR9 <- 1", "FOR9"], meta=dict(noshrink=True, role="prefix")),
                  repl_case("C12-prefix", ["FORMAT <- 1", "FORMAT", "IFx <- 2", "IFx + FORMAT", "TYPEa <- 3", "TYPEa", "WHILEY <- 4", "CASEY <- 5", "REPEATER <- 6", "PROCEDURES <- 7", "FUNCTIONAL <- 8", "WHILEY + CASEY + REPEATER + PROCEDURES + FUNCTIONAL", "?", "", "FORMAT"], meta=dict(noshrink=True, role="prefix")),
                  repl_case("C12-echo", ["5", "2.5", "10 / 4", "4 / 2", "TRUE", "'c'", "\"s\"", "1/2/2003", "TYPE E = (A, B)", "B", "TYPE P = ^INTEGER", "DECLARE p : P", "p", "x <- 3", "p <- ^x", "p", "TYPE R\nDECLARE f : INTEGER\nENDTYPE", "DECLARE r : R", "r", "x = 3", "LENGTH(\"abc\")", "1e5", "100000.0 * 100000.0 * 100000.0", "0.1 + 0.2"], meta=dict(noshrink=True)),
                  Case(id="C12-eof-in-block", mode="repl", stdin=b"x <- 1\nIF x = 1 THEN\nOUTPUT 1\n", meta=dict(noshrink=True)),
